@@ -142,6 +142,12 @@ impl Validator for ScriptHelper {
                     Ok(ValidationResult::Invalid(Some(" <-- required".to_owned())))
                 } else if input.is_empty() && self.s.validator == "scriptinc" {
                     Ok(ValidationResult::Incomplete)
+                } else if input.contains("#@") {
+                    // (an error of another kind: callers must not tell kinds apart)
+                    Err(rustyline::error::ReadlineError::Io(std::io::Error::new(
+                        std::io::ErrorKind::Interrupted,
+                        "scripted validator error (interrupted)",
+                    )))
                 } else if input.contains("##") {
                     Err(rustyline::error::ReadlineError::Io(std::io::Error::new(
                         std::io::ErrorKind::Other,
